@@ -296,6 +296,26 @@ func runC11(c *fw.Ctx) {
 				rootReadWhileDirty = true
 				c.Count("root_reads_on_dirty_trie", 1)
 			}
+			// a proof is a read as well: taken on a trie with uncommitted changes it must be the proof of the current
+			// content, and the commit that follows must still write those changes
+			if ww := m.Weight(); ww > 0 && r.Intn(2) == 0 {
+				b := 1 + uint64(r.Intn(int(ww)))
+				c.Tracef("GetBlockProof(%d)", b)
+				k, proof, perr := t.GetBlockProof(b)
+				if perr != nil {
+					fail("", "GetBlockProof(%d of %d) failed: %v", b, ww, perr)
+					return
+				}
+				owner, _ := m.Owner(b)
+				h, val, verr := wmpt.New(nil, nil).VerifyBlockProof(b, proof)
+				if string(k) != owner || verr != nil || !bytes.Equal(h, wr) || !bytes.Equal(val, m[owner].Val) {
+					fail("", "GetBlockProof(%d of %d): owner %x (want %x), verify error %v, root %x (want %x)", b, ww, k, owner, verr, h, wr)
+					return
+				}
+				if dirty {
+					c.Count("proofs_on_dirty_trie", 1)
+				}
+			}
 		}
 		if t.Weight() != m.Weight() {
 			fail("", "Weight() = %d, sum of live weights = %d", t.Weight(), m.Weight())
@@ -326,7 +346,7 @@ func init() {
 	fw.Register(&fw.Prop{
 		ID:    "C11",
 		Level: "fault_enumeration",
-		Rule: "histories of 10..30 (quick) / 10..70 (thorough) steps: update, overwrite, delete, re-add of identical earlier content (same and later commit windows), delete+re-add in one window, Commit(level 0..5)+batch, garbage-collection passes, Root() reads. " +
+		Rule: "histories of 10..30 (quick) / 10..70 (thorough) steps: update, overwrite, delete, re-add of identical earlier content (same and later commit windows), delete+re-add in one window, Commit(level 0..5)+batch, garbage-collection passes, Root() reads and block proofs taken on the dirty trie (class C), all live keys deleted followed by two GC passes before any commit (class D). " +
 			"The logging storage adapter snapshots the store after EVERY physical operation (a committed batch is one atomic operation); for each snapshot the last durably committed root is reopened from just (hash, weight) on a copy and must be observationally identical to the model " +
 			"(weight, root, owner/value/verifying proof of every block) with every canonical node present. Scenario classes: A unique content, GC only on a clean trie; D GC also while the trie holds uncommitted mutations; B values drawn from a 3-element pool (identical content under several keys); " +
 			"C Root() read between a mutation and the next commit. Every 200th class-A history runs on real pebble (reload after each commit). non-trivial/distinct = distinct history traces",
@@ -337,7 +357,7 @@ func init() {
 			return 64000
 		},
 		Run:    runC11,
-		Floors: map[string]int64{"tries_emptied_by_uncommitted_deletes": 1500, "two_gc_passes_on_an_emptied_uncommitted_trie": 700, "histories": 60000, "crash_points": 200000, "commits": 100000, "gc_passes": 30000, "readd_identical": 30000, "del_readd_same_window": 10000, "class:A": 10000, "class:B": 10000, "class:C": 10000, "class:D": 10000, "gc_on_dirty_trie": 5000, "root_reads_on_dirty_trie": 5000, "histories_on_pebble": 50},
+		Floors: map[string]int64{"tries_emptied_by_uncommitted_deletes": 1500, "proofs_on_dirty_trie": 2000, "two_gc_passes_on_an_emptied_uncommitted_trie": 700, "histories": 60000, "crash_points": 200000, "commits": 100000, "gc_passes": 30000, "readd_identical": 30000, "del_readd_same_window": 10000, "class:A": 10000, "class:B": 10000, "class:C": 10000, "class:D": 10000, "gc_on_dirty_trie": 5000, "root_reads_on_dirty_trie": 5000, "histories_on_pebble": 50},
 		Assumptions: []string{
 			"storage model: completed operations are durable, batches atomic; the state after i operations is what a crash after the i-th operation leaves",
 			"each scenario class has a classifier for the known findings that applies only to its specific mechanism (see DESIGN.md §6 C11)",
